@@ -801,22 +801,55 @@ fn shake_1(expression: Expression) -> Expression {
                         };
                     } else {
                         let (context, needles): (Vec<_>, Vec<_>) = searches.into_iter().unzip();
-                        let expression = Expression::Search(
-                            Search::AhoCorasick(
-                                Box::new(
-                                    AhoCorasickBuilder::new()
-                                        .ascii_case_insensitive(insensitive)
-                                        .kind(Some(AhoCorasickKind::DFA))
-                                        .build(needles)
-                                        .expect("failed to build dfa"),
-                                ),
-                                context,
-                                insensitive,
-                            ),
-                            field,
-                            cast,
-                        );
-                        aho.push(expression);
+                        match AhoCorasickBuilder::new()
+                            .ascii_case_insensitive(insensitive)
+                            .kind(Some(AhoCorasickKind::DFA))
+                            .build(&needles)
+                        {
+                            Ok(automaton) => aho.push(Expression::Search(
+                                Search::AhoCorasick(Box::new(automaton), context, insensitive),
+                                field,
+                                cast,
+                            )),
+                            // NOTE: The merged automaton can exceed the state limit although every
+                            // needle was searchable on its own, in which case they are kept apart.
+                            Err(_) => {
+                                for (context, needle) in context.into_iter().zip(needles) {
+                                    if insensitive {
+                                        aho.push(Expression::Search(
+                                            Search::AhoCorasick(
+                                                Box::new(
+                                                    AhoCorasickBuilder::new()
+                                                        .ascii_case_insensitive(true)
+                                                        .kind(Some(AhoCorasickKind::DFA))
+                                                        .build(vec![needle])
+                                                        .expect("failed to build dfa"),
+                                                ),
+                                                vec![context],
+                                                true,
+                                            ),
+                                            field.clone(),
+                                            cast,
+                                        ));
+                                        continue;
+                                    }
+                                    let field = field.clone();
+                                    match context {
+                                        MatchType::Contains(v) => contains.push(
+                                            Expression::Search(Search::Contains(v), field, cast),
+                                        ),
+                                        MatchType::EndsWith(v) => ends_with.push(
+                                            Expression::Search(Search::EndsWith(v), field, cast),
+                                        ),
+                                        MatchType::Exact(v) => exact
+                                            .push(Expression::Search(Search::Exact(v), field, cast)),
+                                        MatchType::StartsWith(v) => starts_with.push(
+                                            Expression::Search(Search::StartsWith(v), field, cast),
+                                        ),
+                                    }
+                                }
+                            }
+                        }
                     };
                 }
 
